@@ -19,6 +19,8 @@ pub struct NameSource {
     step: usize,
     valid: bool,
     in_dir: bool,
+    /// operations issued before the name under test is created
+    pre: Vec<Op>,
 }
 
 impl NameSource {
@@ -28,7 +30,25 @@ impl NameSource {
             step: 0,
             valid: name_errors(name).is_empty(),
             in_dir,
+            pre: vec![
+                Op::CreateFile { dir: DirRef::Root, path: "src.bin".into(), slot: None },
+                if in_dir { Op::CreateDir { dir: DirRef::Root, path: "dir".into(), slot: None } } else { Op::List { dir: DirRef::Root } },
+            ],
         }
+    }
+    /// The directory is prepared with released runs of 1..=5 slots, each directly followed by a live long name: a new
+    /// name that reuses a run must fit it exactly and leave the neighbours' names intact.
+    pub fn with_holes(name: &str, in_dir: bool) -> Self {
+        let mut me = Self::new(name, in_dir);
+        let spacers = ["S1.TXT", "spacer two", "spacer needing three", "spacer that needs four slots here", "a spacer name that is long enough for five slots"];
+        for (i, sp) in spacers.iter().enumerate() {
+            me.pre.push(Op::CreateFile { dir: DirRef::Root, path: me.p(sp), slot: None });
+            me.pre.push(Op::CreateFile { dir: DirRef::Root, path: me.p(&format!("Neighbour number {} keeps its long name.txt", i)), slot: None });
+        }
+        for sp in spacers.iter() {
+            me.pre.push(Op::Remove { dir: DirRef::Root, path: me.p(sp) });
+        }
+        me
     }
     fn p(&self, n: &str) -> String {
         if self.in_dir {
@@ -58,12 +78,10 @@ impl OpSource for NameSource {
         let s = self.step;
         self.step += 1;
         // common prologue
-        if s == 0 {
-            return Some(Op::CreateFile { dir: root, path: "src.bin".into(), slot: None });
+        if s < self.pre.len() {
+            return Some(self.pre[s].clone());
         }
-        if s == 1 {
-            return Some(if self.in_dir { Op::CreateDir { dir: root, path: "dir".into(), slot: None } } else { Op::List { dir: root } });
-        }
+        let s = s - self.pre.len() + 2;
         if !self.valid {
             return match s {
                 2 => Some(Op::CreateFile { dir: root, path: self.p(&n), slot: None }),
@@ -113,6 +131,10 @@ impl OpSource for NameSource {
 }
 
 pub fn run_name(rep: &mut Report, args: &Args, cache: &mut VolCache, name: &str, in_dir: bool, seen_sigs: &mut BTreeSet<String>) {
+    run_name_x(rep, args, cache, name, in_dir, false, seen_sigs)
+}
+
+pub fn run_name_x(rep: &mut Report, _args: &Args, cache: &mut VolCache, name: &str, in_dir: bool, holes: bool, seen_sigs: &mut BTreeSet<String>) {
     let vc = VolCfg { fat: 12, bps: 512, spc: 1, nfats: 1, root_entries: 64, clusters: 64, extra: 0, garbage: false, slack: 0, used_device: false };
     let Ok((img, vb)) = cache.get(&vc) else {
         rep.inconclusive.push("template volume could not be formatted".into());
@@ -121,7 +143,10 @@ pub fn run_name(rep: &mut Report, args: &Args, cache: &mut VolCache, name: &str,
     let mut scfg = SessCfg::all(unicode_build());
     scfg.props = ["C01", "C03", "C15", "C16"].into_iter().collect();
     scfg.nhandles = 1;
-    let mut src = NameSource::new(name, in_dir);
+    let mut src = if holes { NameSource::with_holes(name, in_dir) } else { NameSource::new(name, in_dir) };
+    if holes {
+        rep.count("sessions_with_released_runs", 1);
+    }
     let class = fnv_of(&["c15", if name_errors(name).is_empty() { "valid" } else { "invalid" }]);
     let o = run_session(&scfg, &img, vb, class, &mut src);
     rep.evaluations += 1;
@@ -130,7 +155,7 @@ pub fn run_name(rep: &mut Report, args: &Args, cache: &mut VolCache, name: &str,
         rep.count(&format!("outcome:{}:{}", kind, ek), *n);
     }
     // distinct = distinct names (hash) - each is a different input of the domain
-    rep.distinct.insert(fnv_of(&[name, if in_dir { "d" } else { "r" }]));
+    rep.distinct.insert(fnv_of(&[name, if in_dir { "d" } else { "r" }, if holes { "holes" } else { "" }]));
     if let Some(v) = o.violation {
         // everything these sessions can reveal is name handling: report under C15
         let sig = format!("C15|{}", v.sig);
@@ -162,6 +187,8 @@ pub fn run(args: &Args, rep: &mut Report) {
         let name = String::from_utf8_lossy(&bytes).to_string();
         run_name(rep, args, &mut cache, &name, false, &mut seen);
         run_name(rep, args, &mut cache, &name, true, &mut seen);
+        run_name_x(rep, args, &mut cache, &name, false, true, &mut seen);
+        run_name_x(rep, args, &mut cache, &name, true, true, &mut seen);
         return;
     }
     let mut rng = Rng::derive(seed, 0xC15, shard);
@@ -172,6 +199,11 @@ pub fn run(args: &Args, rep: &mut Report) {
             return;
         }
         run_name(rep, args, cache, &name, in_dir, seen);
+        // every length also into a directory with released slot runs (ASCII and 3-byte characters)
+        let cnt = name.chars().count();
+        if cnt > 3 && (name.chars().all(|c| c == 'a') || name.chars().all(|c| c == '\u{4e2d}') || cnt < 40 && n % 5 == 0) {
+            run_name_x(rep, args, cache, &name, in_dir || cnt > 40 || cnt % 2 == 0, true, seen);
+        }
         if rep.samples.len() < 4 && n % 977 == shard {
             rep.sample(J::s(show_str(&name)));
         }
